@@ -83,6 +83,7 @@ type SpecFunc struct {
 	Body   Expr
 	Text   string
 	Rec    bool
+	Prefix bool // fold over the first n elements of its sequence argument (shape checked): stable under append
 	Opaque bool
 	Line   int
 	File   string
@@ -119,7 +120,7 @@ func NewContracts() *Contracts {
 
 var (
 	reFuncHdr  = regexp.MustCompile(`^func\s+(?:\(\s*(\*?\w+)\s*\)\s*)?(\w+)(?:\s+results\s*\(([^)]*)\))?\s*$`)
-	reSpecHdr  = regexp.MustCompile(`^spec\s+(rec\s+|opaque\s+)?func\s+(\w+)\s*\(([^)]*)\)\s*([\w\[\]\.]+)\s*=\s*(.*)$`)
+	reSpecHdr  = regexp.MustCompile(`^spec\s+(rec\s+prefix\s+|rec\s+|opaque\s+)?func\s+(\w+)\s*\(([^)]*)\)\s*([\w\[\]\.]+)\s*=\s*(.*)$`)
 	reLemmaHdr = regexp.MustCompile(`^lemma\s+(\w+)\s*\(([^)]*)\)\s*$`)
 	reLabel    = regexp.MustCompile(`^([a-zA-Z_][a-zA-Z0-9_]*):\s+(.*)$`)
 	reLoopHdr  = regexp.MustCompile(`^loop\s+(\d+)\s*:?\s*$`)
@@ -259,7 +260,7 @@ func (cs *Contracts) ParseFile(path, pkgName string) error {
 			if err != nil {
 				return fail(l, "%v in spec %s", err, m[2])
 			}
-			sf := &SpecFunc{Pkg: pkgName, Name: m[2], Params: ps, Ret: m[4], Body: body, Text: m[5], Rec: strings.TrimSpace(m[1]) == "rec", Opaque: strings.TrimSpace(m[1]) == "opaque", Line: l.line, File: path}
+			sf := &SpecFunc{Pkg: pkgName, Name: m[2], Params: ps, Ret: m[4], Body: body, Text: m[5], Rec: strings.HasPrefix(strings.TrimSpace(m[1]), "rec"), Prefix: strings.Contains(m[1], "prefix"), Opaque: strings.TrimSpace(m[1]) == "opaque", Line: l.line, File: path}
 			if _, dup := cs.Specs[sf.Name]; dup {
 				return fail(l, "duplicate spec func %s", sf.Name)
 			}
